@@ -42,7 +42,7 @@ Section Spec.
     | VMap tg l =>
         VMap tg (map (fun ky : N * v =>
                         (fst ky, match key_tags (fst ky) (map_tags cx tg) with
-                                 | [] => spec CMapVal (snd ky)
+                                 | [] => spec (entry_ctx (fst ky) (map_tags cx tg)) (snd ky)
                                  | ts => spec_tags ts (snd ky)
                                  end)) l)
     | _ => x
@@ -94,7 +94,7 @@ Section Spec.
     | VMap tg l =>
         forallb (fun ky : N * v =>
                    match key_tags (fst ky) (map_tags cx tg) with
-                   | [] => cleanb CMapVal (snd ky)
+                   | [] => cleanb (entry_ctx (fst ky) (map_tags cx tg)) (snd ky)
                    | ts => tagged_okb ts (snd ky)
                    end) l
     | _ => true
@@ -120,7 +120,7 @@ Section Spec.
     | VMap tg l =>
         forallb (fun ky : N * v =>
                    match key_tags (fst ky) (map_tags cx tg) with
-                   | [] => inGb CMapVal (snd ky)
+                   | [] => inGb (entry_ctx (fst ky) (map_tags cx tg)) (snd ky)
                    | _ => scalarb (snd ky)
                    end) l
     | _ => true
@@ -150,7 +150,7 @@ Section Spec.
     | VMap tg l =>
         forallb (fun ky : N * v =>
                    match key_tags (fst ky) (map_tags cx tg) with
-                   | [] => tosb CMapVal (snd ky)
+                   | [] => tosb (entry_ctx (fst ky) (map_tags cx tg)) (snd ky)
                    | _ => strb (snd ky)
                    end) l
     | _ => true
